@@ -1,9 +1,9 @@
 package props
 
 import (
-	"math"
 	"fmt"
 	"io"
+	"math"
 	"math/rand"
 	"os"
 	"strings"
@@ -20,7 +20,7 @@ import (
 
 type c02case struct {
 	NoProbe bool       `json:"no_probe,omitempty"` // handle offsets are probed (with Seek) only after the last call: the probe itself is a call the handle sees
-	Path    string     `json:"path,omitempty"` // the file the script works on: "f" (exists) or "n" (created by the first Open)
+	Path    string     `json:"path,omitempty"`     // the file the script works on: "f" (exists) or "n" (created by the first Open)
 	Name    string     `json:"name"`
 	Subject string     `json:"subject"`
 	Init    string     `json:"init"` // initial contents of "f"
